@@ -36,27 +36,32 @@ theorem C02_exact (env : Env) (s s' : State) (txs : List Tx) (fb : Header)
       else match (batchCreated s.height txs).get id with
         | some c => some c
         | none => if id ∈ markerIds env txs then some markerCoin else s.coins.getCoin id := by
-  sorry
+  have hm1 : ∀ m ∈ markerIdsOf env txs, m ∉ txs.flatMap (·.inputs) := fun m hmm => (hm m hmm).1
+  have hm2 : ∀ m ∈ markerIdsOf env txs, (createdOf s.height txs).get m = none := fun m hmm => (hm m hmm).2
+  exact applyBatch_getCoin h hm1 hm2 id
 
 /-- created coins carry what was declared -/
 theorem C02_created_content (height : Nat) (txs : List Tx) (id : CoinID) (c : CoinDataHeight)
+    (hwf : ∀ tx ∈ txs, tx.outputs.length ≤ 256)
     (h : (batchCreated height txs).get id = some c) :
     c.height = height ∧ c.coinData.covhash ≠ coinDestroy ∧ c.coinData.denom ≠ .newCustom ∧
     ∃ tx ∈ txs, ∃ o ∈ tx.outputs, id.txhash = tx.hash ∧ tx.outputs[id.index]? = some o ∧
       c.coinData.value = o.value ∧ c.coinData.covhash = o.covhash ∧ c.coinData.additionalData = o.additionalData ∧
       c.coinData.denom = (if o.denom = .newCustom then .custom tx.hash else o.denom) := by
-  sorry
+  exact createdOf_content hwf h
 
 /-- **no double spend**: an accepted batch consumes no coin twice -/
 theorem C02_no_double_spend (env : Env) (s s' : State) (txs : List Tx) (fb : Header)
     (h : applyBatch env s txs fb = .ok s') : (batchInputs txs).Nodup := by
-  sorry
+  obtain ⟨rel, _, _, h1, -⟩ := applyBatch_ok h
+  exact (loadRelevantCoins_ok h1).2.1
 
 /-- every input of an accepted batch was unspent before or is created inside the batch -/
 theorem C02_inputs_exist (env : Env) (s s' : State) (txs : List Tx) (fb : Header)
     (h : applyBatch env s txs fb = .ok s') (id : CoinID) (hid : id ∈ batchInputs txs) :
     (s.coins.getCoin id).isSome ∨ ((batchCreated s.height txs).get id).isSome := by
-  sorry
+  obtain ⟨rel, _, _, h1, -⟩ := applyBatch_ok h
+  exact (loadRelevantCoins_ok h1).2.2.1 id hid
 
 /-- every transaction of an accepted batch is individually well-formed and passes the validity check
     (balanced, authorised, unlocked) against the coins of the state and of the batch -/
@@ -65,18 +70,22 @@ theorem C02_each_valid (env : Env) (s s' : State) (txs : List Tx) (fb : Header)
     tx.isWellFormed = true ∧
     ∃ rel newStakes, loadRelevantCoins s txs = .ok rel ∧ loadStakeInfo s txs = .ok newStakes ∧
       checkTxValidity env s (lastHeaderOf s fb) tx rel newStakes = .ok () := by
-  sorry
+  obtain ⟨rel, newStakes, _, h1, h2, h3, -⟩ := applyBatch_ok h
+  exact ⟨((loadRelevantCoins_ok h1).1 tx htx).1, rel, newStakes, h1, h2, h3 tx htx⟩
 
 /-- a batch with a repeated input is rejected -/
 theorem C02_repeat_rejected (env : Env) (s : State) (txs : List Tx) (fb : Header)
     (h : ¬ (batchInputs txs).Nodup) : ∃ e, applyBatch env s txs fb = .reject e ∨ ∃ c, applyBatch env s txs fb = .crash c := by
-  sorry
+  cases hr : applyBatch env s txs fb with
+  | ok s' => exact absurd (C02_no_double_spend env s s' txs fb hr) h
+  | reject e => exact ⟨e, Or.inl rfl⟩
+  | crash c => exact ⟨default, Or.inr ⟨c, rfl⟩⟩
 
 /-- a batch referencing a coin that is neither unspent nor created in the batch is rejected -/
 theorem C02_missing_rejected (env : Env) (s : State) (txs : List Tx) (fb : Header) (id : CoinID)
     (hid : id ∈ batchInputs txs) (h1 : s.coins.getCoin id = none) (h2 : (batchCreated s.height txs).get id = none) :
     applyBatch env s txs fb = .reject .malformedTx ∨ applyBatch env s txs fb = .reject .nonexistentCoin := by
-  sorry
+  exact applyBatch_missing hid h1 h2
 
 /-- `apply_tx_batch(&mut self, …)`: the state is replaced only on success — rejection is a no-op -/
 def applyTxBatchMut (env : Env) (s : State) (txs : List Tx) (fb : Header) : State × Outcome Unit :=
@@ -87,6 +96,19 @@ def applyTxBatchMut (env : Env) (s : State) (txs : List Tx) (fb : Header) : Stat
 
 theorem C02_reject_noop (env : Env) (s : State) (txs : List Tx) (fb : Header) (e : StateError)
     (h : (applyTxBatchMut env s txs fb).2 = .reject e) : (applyTxBatchMut env s txs fb).1 = s := by
-  sorry
+  unfold applyTxBatchMut at h ⊢
+  cases hr : applyBatch env s txs fb with
+  | ok s' => rw [hr] at h; cases h
+  | reject e' => rfl
+  | crash c => rfl
 
 end Mel
+
+#print axioms Mel.C02_exact
+#print axioms Mel.C02_created_content
+#print axioms Mel.C02_no_double_spend
+#print axioms Mel.C02_inputs_exist
+#print axioms Mel.C02_each_valid
+#print axioms Mel.C02_repeat_rejected
+#print axioms Mel.C02_missing_rejected
+#print axioms Mel.C02_reject_noop
